@@ -24,7 +24,7 @@ import (
 // functions (an imported file's absence must not be reported as the importing
 // file's), because that value reaches the tolerant caller with a nil
 // configuration.
-func toleratedSentinels(c *an.Ctx, rule string) {
+func toleratedSentinels(c *an.Ctx, rule string, strict bool) {
 	p := c.P
 	load := p.Func("internal/config", "Loader", "Load")
 	if load == nil {
@@ -174,6 +174,11 @@ func toleratedSentinels(c *an.Ctx, rule string) {
 		switch {
 		case !tolerant:
 			c.OK(rule, key, st.is.Pos(), "an error matching %s always ends the action with an error", st.s.Name())
+		case !relies && strict:
+			// (C17: whether or not the configuration is tested, going on means the failure is not reported —
+			// so nothing but the absence of the requested file itself may match the sentinel)
+			relied[st.s] = true
+			c.OK(rule, key, st.is.Pos(), "an error matching %s is tolerated (the action goes on): errors matching it must not come from a broken import (obligations below)", st.s.Name())
 		case !relies:
 			c.OK(rule, key, st.is.Pos(), "an error matching %s is tolerated, and the configuration is tested before use", st.s.Name())
 		default:
